@@ -17,6 +17,7 @@ EXPLANATION = (
     ' ENC-MISSING is decided on histories as well: the same message asked again after one field was replaced, after a new field list was assigned, after an append (a lookup cache that is not refreshed fails). SENT-AGREE / SIGN-AGREE (C02) are included: an absent value must be written as the pattern the decoder reads as absent.'
     ' Fifth round: [ENC-STATE] every use of self.<attr> in the encoder is classified (read / write / not visible): bound in __init__ and only read is configuration, written and read after construction is state between messages (violation), anything else is undecided. When the encode_number residual is not of the piecewise form it is decided on points (tick counts around every boundary, None): ENC-RANGE / SENT-AGREE / SIGN-AGREE then rest on sampled points. An encode_time call site that was not read and a payload assembled by a loop the guard extractor only approximates give no verdict.'
     ' Seventh round: ENC-MISSING runs its histories in one module environment and asks a second message of the same PGN whose fields are ordered differently (a position remembered per PGN number fails).'
+    ' Eighth round: see C02 for newly encodable field types.'
 )
 ASSUMPTIONS = ["CPython ast parser", "canboat.json is the oracle", "sym.py partial evaluation",
                "struct.pack('<f') raises on values outside the 32-bit float range (documented)"]
